@@ -1,0 +1,29 @@
+//go:build verif
+// +build verif
+
+// Verification hook for the block store check (add-only, compiled only with -tags verif): access to
+// the state LevelDB held by the account-db manager, and a way to drop its in-memory trie cache (what a
+// process restart does) while optionally putting a recording wrapper in front of the store.
+package middleware
+
+import (
+	"com.tuntun.rangers/node/src/middleware/db"
+	"com.tuntun.rangers/node/src/storage/account"
+)
+
+// VerifBCStateStore returns the state LevelDB opened by initAccountDBManager.
+func VerifBCStateStore() *db.LDBDatabase {
+	return AccountDBManagerInstance.db
+}
+
+// VerifBCResetState rebuilds the account database (fresh trie node cache) over wrap(state store) and
+// forgets the latest-state objects, as a process restart would.
+func VerifBCResetState(wrap func(d db.Database) db.Database) {
+	var d db.Database = AccountDBManagerInstance.db
+	if wrap != nil {
+		d = wrap(d)
+	}
+	AccountDBManagerInstance.stateDB = account.NewDatabase(d)
+	AccountDBManagerInstance.latestStateDB = nil
+	AccountDBManagerInstance.LatestStateDB = nil
+}
